@@ -25,6 +25,15 @@ CLAIMED = {
             "cut off exactly. Container kind / bit-exactness / finiteness are observed on the implementation by the correspondence run and oracle.",
             "model coq/Model/Rfa.v tied by sampled correspondence; ndarray kind, -0.0 and finiteness are runtime observations, not theorems",
             "Coq proof + in-Coq correspondence"),
+    "C05": ("Coq theorems: the four window strategies' output lists EQUAL the documented closed forms sample by sample (link theorems, all sizes, "
+            "every pw/gpow, proved through the sequential last-write-wins loop); on the closed forms: every sample lies between its interval's "
+            "average and the neighbour's on its side, plateau samples equal the average exactly (so at most al+ar-1 <= a-1 differ), adaptive windows "
+            "satisfy al+ar <= a <= n for any smoothing, linear transitions are monotone, exp transitions are monotone for exponent >= 1 (every integer "
+            "exponent outright) and for the concave bundle; the FULL monotone claim is refuted in Coq (C05_monotone_exp_refuted) = known finding F1; "
+            "piecewise-constant exact, constant series constant. Cubic spline through points: oracle contract + check.",
+            "closed forms Model/RfaSpec.v linked to Model/Rfa.v in Coq; Rfa.v tied to rfa.py by sampled correspondence; real t^alpha meeting the "
+            "bundles is pen-and-paper; cubic spline is SciPy's; known finding F1 (monotonicity for exponent < 0.1330)",
+            "Coq proof (refinement of the write loop to closed forms + real-closed-field reasoning) + in-Coq correspondence"),
     "C06": ("Coq theorems: the five GENERATED shape functions equal their documented closed forms for every power function and hit both end points; "
             "the fixed-window border value is the linear interpolation at the border between the plateau ends (jump divided in the ratio of the "
             "interval widths); adaptive windows are adaptive_pair on the neighbouring jumps: proportional split for adaptive_smooth=1, the larger jump "
